@@ -146,7 +146,7 @@ def req_record(req: dict, flavour: dict) -> dict:
     return {"cop": cop, "verb": [asc(v) for v in req.get("verb", [])], "lic": list(req["lic"]), "con": [asc(c) for c in req["con"]],
             "merge": bool(flavour.get("merge")), "skipExisting": bool(flavour.get("skip_existing")),
             "skipUnrecognised": bool(flavour.get("skip_unrecognised")),
-            "rendersCon": flavour.get("template") not in ("nocon", "droplic", "dropcop", "dropall"),
+            "rendersCon": flavour.get("template") not in ("nocon", "droplic", "dropcop", "dropall", "pydrop", "pydroplic"),
             "noReplace": bool(flavour.get("no_replace"))}
 
 
@@ -188,6 +188,9 @@ def run_history(case: dict) -> list:
         for k, v in TEMPLATES.items():
             (tdir / f"{k}.jinja2").write_text(v)
         (tdir / "pycommented.commented.jinja2").write_text(COMMENTED)
+        (tdir / "pydrop.commented.jinja2").write_text("# Example header without any information\n#\n# All rights reserved.\n")
+        (tdir / "pydroplic.commented.jinja2").write_text(
+            "{% for copyright_line in copyright_lines %}\n# {{ copyright_line }}\n{% endfor %}\n#\n# Licence: see LICENSE\n")
         styles = {s["name"]: s for s in annmodel.style_table()}
         for f in case["files"]:
             p = root / f["name"]
@@ -218,7 +221,7 @@ def run_history(case: dict) -> list:
             post = {n: observe(root, n, req_texts) for n in names}
             fmeta = {f["name"]: f for f in case["files"]}
             ev = {"tid": case["tid"], "k": k, "label": case["label"], "crash": (r["exc"] or "")[-500:],
-                  "exit": r["exit"], "req": rr, "sameAsPrev": cmd == prev_cmd, "treeUnchanged": snap0 == snap1,
+                  "exit": r["exit"], "req": rr, "expect": step.get("expect", "any"), "sameAsPrev": cmd == prev_cmd, "treeUnchanged": snap0 == snap1,
                   "files": [{"name": n, "mustSucceed": bool(step.get("must", {}).get(n, False)),
                              "unrecognised": bool(fmeta.get(n, {}).get("unrecognised")),
                              "pre": pre[n], "post": post[n]} for n in names],
